@@ -8,6 +8,7 @@ populateMarksReadOnly Grammar._populate_sources marks the children of a generato
 unfitValueRaises      Grammar.generate: `if tree is None: raise FandangoParseError`, and nothing else is assigned to
                       `tree` afterwards (no substitute value)
 replaceChecksReadOnly replace_multiple only swaps a node when `not self.read_only`
+deriveMarksParamReadOnly  Grammar.derive_sources marks the output of a parameter's own generator read-only
 eqRepairGuardsGenerated  EqualComparisonSuggestion.get_replacements consults `is_use_generator`
 The translator *refuses* (→ broken obligation) when a function it reads has disappeared or lost its shape.
 """
@@ -94,6 +95,13 @@ def regenerate() -> dict:
         refusals.append("Grammar._populate_sources not found")
     else:
         flags["populateMarksReadOnly"] = _marks_ro(f.body)
+    f = _func(gr_py, "Grammar", "derive_sources") if gr_py else None
+    if f is None:
+        refusals.append("Grammar.derive_sources not found")
+    else:
+        if not _calls(f, "generate") or not _calls(f, "populate_sources"):
+            refusals.append("Grammar.derive_sources: no longer generates the parameters / populates their children")
+        flags["deriveMarksParamReadOnly"] = _marks_ro(f.body)
     f = _func(gr_py, "Grammar", "generate") if gr_py else None
     if f is None:
         refusals.append("Grammar.generate not found")
@@ -114,7 +122,7 @@ def regenerate() -> dict:
     else:
         flags["eqRepairGuardsGenerated"] = bool(_calls(f, "is_use_generator"))
     names = ["regenMarksReadOnly", "fuzzMarksReadOnly", "populateMarksReadOnly", "unfitValueRaises",
-             "replaceChecksReadOnly", "eqRepairGuardsGenerated"]
+             "replaceChecksReadOnly", "eqRepairGuardsGenerated", "deriveMarksParamReadOnly"]
     for n in names:
         if n not in flags:
             refusals.append(f"{n}: could not be read from the source")
